@@ -6,10 +6,11 @@ insertions at every position; observation = token dump of the real scanner (fork
 oracle = reference lexer clex (R), clang -dump-tokens consulted on every disagreement (two-witness rule).
 """
 import itertools
+import os
 import re
 import subprocess
 
-from .. import clex, fs
+from .. import clex, fs, ilexec
 
 LEVEL = 'model_checking'
 
@@ -201,6 +202,9 @@ def main(chk):
     # P3: keywords and perturbations
     kwres = p3_keywords(chk, q)
     nrun += kwres['evaluations']
+    np6 = p6_semantic(chk)
+    nrun += np6
+    strata['P6'] = np6
     # two-witness rule on every disagreement
     amb = 0
     for st, c, e, g in bad:
@@ -237,6 +241,38 @@ def main(chk):
         'clex implements C11 6.4 without digraphs (documented unsupported) and trigraphs (excluded, counted)',
         'clang -dump-tokens is consulted for every disagreement; disagreement between clex and clang makes the case ambiguous',
     ])
+
+
+P6 = open(os.path.join(os.path.dirname(os.path.dirname(os.path.dirname(os.path.abspath(__file__)))), 'corpus', 'c13', 'p6.c')).read()
+
+
+def p6_semantic(chk):
+    """the split is observable in the value: executed through il2c and compared with gcc and clang"""
+    import shutil
+    d = ilexec.workdir('c13.')
+    try:
+        try:
+            got = ilexec.exec_program(P6, d)[:2]
+        except ilexec.CompileError as e:
+            chk.violation('P6/rejects-valid-program', 'the semantic probe program is rejected: %s' % e, files={'input.c': P6.encode()}, cmd='$CPROC_QBE input.c > /dev/null')
+            return 0
+        r1 = ilexec.exec_reference(P6, d, compiler='gcc')[:2]
+        r2 = ilexec.exec_reference(P6, d, compiler='clang')[:2]
+        if r1 != r2 or r1[0] != 0:
+            chk.notes.append('P6 ambiguous: gcc %r clang %r' % (r1, r2))
+            return 0
+        # 0xe+1 is ONE preprocessing number (6.4.8) and therefore an invalid constant: must be rejected
+        r = fs.server('fs').compile(b'int v = 0xe+1;\n')
+        if r.status != 1:
+            chk.violation('P6/0xe+1-accepted', '`int v = 0xe+1;` gives status %d: the pp-number 0xe+1 was split' % r.status, files={'input.c': b'int v = 0xe+1;\n'}, cmd='$CPROC_QBE input.c')
+        if got != r1:
+            g, r = got[1].split(), r1[1].split()
+            idx = next((i for i, (x, y) in enumerate(zip(g, r)) if x != y), -1)
+            chk.violation('P6/value-%d-differs' % idx, 'semantic probes: cproc+il2c prints %r, gcc and clang print %r' % (got, r1), files={'input.c': P6.encode()},
+                          cmd='$CPROC_QBE input.c | head -3')
+        return len(r1[1].split())
+    finally:
+        shutil.rmtree(d, ignore_errors=True)
 
 
 def classify(st, c, e, g):
